@@ -110,9 +110,9 @@ def compilable(case):
 
 def gen_program(cases, bom=False):
     """Returns (text of generated.rs, list of (uid, case, first_line, last_line))."""
-    out = [("\ufeff" if bom else "") + "#![allow(unused, unreachable_code, clippy::all)]\nuse log::{info, warn, error};\n\n"]
+    out = [("\ufeff" if bom else "") + "#![allow(unused, unreachable_code, clippy::all)]\nuse log::{info, warn, error};\nconst TGT: &str = \"const-target\";\n\n"]
     index = []
-    line = 4
+    line = 5
     uid = 7000
     calls = []
     for c in cases:
@@ -215,6 +215,8 @@ def run_program(binary, cases, structured):
         for (uid, c, first, last), a, b in zip(index, rec_a, rec_b):
             src_b = "\n".join(blines[first - 1:last])
             exp = c["outcome"]
+            if exp == "any" and a != b:
+                exp = "missing"      # free to edit it or not; if edited, then only by adding the reference
             if a == b:
                 if exp == "missing":
                     problems.append((c, "statement lacking a reference emits an unchanged record after the edit (not edited?)"))
